@@ -1,4 +1,12 @@
 """C02 evaluation ends in a value or a Garden error, never a crash."""
+REG = dict(
+    engine='E1-enum',
+    technique='bounded-exhaustive enumeration of calls (every built-in/prelude function, method, operator and syntax form x argument vectors over a value pool), executed on the real interpreter',
+    text="Every public prelude/built-in function and method (table parsed from the repository's own .gdn files at run time, so new functions are picked up) is called with every argument vector over a 20-value pool (full product for <=2 positions, deviation-bounded beyond), plus arity n-1/n+1; every binary operator and +=/-= over pool x pool; 45 syntax forms x pool. Outcome must be a value or a Garden error: a Rust panic, abort, signal or non-termination is a violation. Exhaustive within the pool and deviation bound.",
+    note='One call per program with a fresh Env, tick limit 200k; effectful built-ins run sandboxed and (in a scratch directory) unsandboxed; `read_line` only through the real CLI with stdin at EOF. Values outside the pool and call sequences are not covered.',
+    design_ref='DESIGN.md §6 C02',
+)
+
 import itertools
 from ..core import Machinery
 from .. import builtins as bi
